@@ -15,6 +15,9 @@ def queries(tier):
     qs = []
     qs.append(Query("pipe-event-filter", "c14/sock_events.c", tus=TUS, env=ENV, defs={"MODE": 1}, unwind=10, unwind_rules=KIT_RULES, timeout=300,
                     params={"kernel": "nni_pipe_run_cb", "events": "5 symbolic submissions"}))
+    for nreg in (1, 2, 3):
+        qs.append(Query("pipe-notify-registration-%d" % nreg, "c14/sock_events.c", tus=TUS, env=ENV, defs={"MODE": 5, "NREG": nreg}, unwind=10, unwind_rules=KIT_RULES, timeout=300,
+                        group="~c14/sock_events.c#5", params={"kernel": "nni_sock_set_pipe_cb + nni_pipe_run_cb", "registration_calls": "%d symbolic (any event number, set or clear) + one symbolic removal mid-life" % nreg}))
     qs.append(Query("dialer-backoff", "c14/sock_events.c", tus=TUS, env=ENV, defs={"MODE": 2}, unwind=10, unwind_rules=KIT_RULES, timeout=300,
                     params={"kernel": "dialer_timer_start_locked", "times": "symbolic"}))
     qs.append(Query("dialer-connect-any-result", "c14/dialer_connect.c", tus=TUS, env=ENV, defs={}, unwind=10, unwind_rules=KIT_RULES, timeout=300,
